@@ -389,25 +389,29 @@ def rule_subgraph_node_set(ctx: Ctx, out: Collector) -> None:
         if sub is None:
             raise AnalysisError(f'{unit.fid}: subgraph(...) call not found')
         from ..cfg import Inst
-        exprs = [e for e, i in resolve_all(ctx.p, sub.args[0], Inst(unit, None, None, {}))]
+        pairs = _follow_values(ctx, sub.args[0], Inst(unit, None, None, {}))
+        exprs = [e for e, i in pairs]
         txt = ' '.join(unparse(e) for e in exprs)
         calls = {}
-        for e in exprs:
+        for e, i in pairs:
             for c in ast.walk(e):
                 if isinstance(c, ast.Call):
                     d = (dotted(c.func) or '').split('.')[-1]
-                    calls.setdefault(d, []).append(c)
+                    calls.setdefault(d, []).append((c, i))
+
+        def is_param(a, i, name):
+            return sym.term(ctx.p, a, i) == ('param', name)
         verdict = None
         if 'all_simple_paths' in calls:
-            c = calls['all_simple_paths'][0]
+            c, i = calls['all_simple_paths'][0]
             args = [unparse(a) for a in c.args]
-            if args[:3] == [g_, src_, dst_]:
+            if len(c.args) >= 3 and is_param(c.args[0], i, g_) and is_param(c.args[1], i, src_) and is_param(c.args[2], i, dst_):
                 verdict = ('ok', f'all nodes of nx.all_simple_paths({g_}, {src_}, {dst_})')
             else:
                 verdict = ('bad', f'all_simple_paths({", ".join(args)}) is not taken from {src_} to {dst_}')
         elif 'ancestors' in calls or 'descendants' in calls:
-            anc_dst = any(len(c.args) >= 2 and unparse(c.args[1]) == dst_ for c in calls.get('ancestors', []))
-            desc_src = any(len(c.args) >= 2 and unparse(c.args[1]) == src_ for c in calls.get('descendants', []))
+            anc_dst = any(len(c.args) >= 2 and is_param(c.args[1], i, dst_) for c, i in calls.get('ancestors', []))
+            desc_src = any(len(c.args) >= 2 and is_param(c.args[1], i, src_) for c, i in calls.get('descendants', []))
             inter = any(isinstance(x, ast.BinOp) and isinstance(x.op, ast.BitAnd) for e in exprs for x in ast.walk(e)) or '.intersection(' in txt
             if anc_dst and desc_src and inter:
                 verdict = ('ok', f'descendants({src_}) & ancestors({dst_})')
@@ -429,6 +433,11 @@ def rule_subgraph_node_set(ctx: Ctx, out: Collector) -> None:
                     f'the sub-dag is not exactly the nodes on dependency paths from {src_} to {dst_} ({verdict[1]}): side inputs outside the '
                     f'recurrent subgraph are pulled in, re-armed and re-executed on every iteration (or needed nodes are left out)',
                     props={'C04', 'C11', 'C03'})
+
+
+def _follow_values(ctx: Ctx, expr: ast.AST, inst, depth: int = 0):
+    from ..engine import follow_values
+    return follow_values(ctx.p, expr, inst, depth, awaited=False)
 
 
 def rule_filtered_view(ctx: Ctx, out: Collector) -> None:
@@ -572,6 +581,9 @@ def _eval_filter(ctx: Ctx, unit: FuncUnit, which: str, parent: FuncUnit) -> Dict
             interp = Interp(p, oracle)
             closure = {'__unit__': parent, '__closure__': None, '__module__': parent.module, 'self': mgr, '__self__': mgr}
             args = ['U', 'V'] if which == 'filter_edge' else ['U']
+            if unit.cls is not None and unit.parent is None and not unit.is_static:
+                # a bound method of the manager used as the filter
+                return interp.truth(interp.call_unit(unit, args, {}, mgr, None))
             return interp.truth(interp.call_unit(unit, args, {}, None, closure))
 
         outs = enumerate_outcomes(run)
